@@ -208,6 +208,10 @@ func (t *SType) yang(ind string) string {
 		if t.Base == "boolean" {
 			other = "int8"
 		}
+		if t.WrapID%2 == 1 {
+			// the same members, the first of them inside a union of its own
+			return "type union {\n" + ind + "  type union {\n" + ind + "    " + t.inline(ind+"    ") + "\n" + ind + "  }\n" + ind + "  type " + other + ";\n" + ind + "}"
+		}
 		return "type union {\n" + ind + "  " + t.inline(ind+"  ") + "\n" + ind + "  type " + other + ";\n" + ind + "}"
 	case "leafref":
 		return "type leafref { path \"../" + t.WrapTarget + "\"; }"
@@ -594,6 +598,7 @@ type GenOpts struct {
 	Prefix           string // prefix of the main module ("" = its name, m)
 	ModName          string // name of the main module ("" = m)
 	ListsOfAll       bool   // leaf-lists of bits and binary too (a leaf-list of empty is not legal)
+	UnionWrapStrings bool   // half of the string leaves are written as the first member of a (possibly nested) union
 	HostileEnumNames bool   // some enumerations have names holding / , + % = and a space
 	NumericEnumNames bool   // some enumerations name their values "10", "100" ...
 	Presence         bool
@@ -761,6 +766,9 @@ func (g *gen) wrap(kids []*SNode) {
 			continue
 		}
 		k := g.r.Intn(8)
+		if g.o.UnionWrapStrings && c.Type.Base == "string" && g.r.Intn(2) == 0 {
+			k = 1
+		}
 		if k == 2 && isTarget[c] {
 			continue
 		}
@@ -770,7 +778,8 @@ func (g *gen) wrap(kids []*SNode) {
 			c.Type.Wrap, c.Type.WrapID = "typedef", g.seq
 		case 1:
 			if c.Type.Base != "bits" && c.Type.Base != "binary" && !g.o.NoUnionWrap {
-				c.Type.Wrap = "union"
+				g.seq++
+				c.Type.Wrap, c.Type.WrapID = "union", g.seq
 			}
 		case 2:
 			// leafref to a sibling leaf that is written plainly: this leaf takes over the sibling's type
